@@ -69,9 +69,26 @@ def container_of(d):
     return c
 
 
-def make(fam, mode, slots, trace, seed, table=None, req=None):
-    """ A real, initialised dist of the family; parameters by mode """
+# Object lifecycles: how the distribution object came to be initialised.  The property makes a draw a function of (seed, identity,
+# parameters, timestep, ordinal, slot) only, so none of these may matter:
+#   once   created (strict=True) and initialised once                        -- what every module distribution of a default sim is
+#   loose  created with strict=False (it initialises itself at once, without sim or slots) and then initialised properly with
+#          force=True                                                         -- a user-made distribution handed to a module (Sim.init re-initialises it)
+#   twice  initialised, drawn from, initialised again with force=True         -- `Dists.init(force=True)`, a re-initialised sim
+#   copy   initialised, drawn from, deep-copied; the copy is used             -- `sim.copy()`, MultiSim, parallel runs
+#   pickle initialised, drawn from, pickled and restored                      -- `sim.save()` / `ss.load()`, multiprocessing
+LIVES = ['once', 'loose', 'twice', 'copy', 'pickle']
+
+
+def life_of(c):
+    """ the lifecycle of a case's distribution objects (older stored cases have none: 'once') """
+    return c.get('life', 'once')
+
+
+def make(fam, mode, slots, trace, seed, table=None, req=None, life='once'):
+    """ A real, initialised dist of the family; parameters by mode; object lifecycle by `life` """
     import starsim as ss
+    import copy, pickle
     pars = dict(impl.DIST_PARS[fam])
     if mode == 'tp_callable':
         # a time-wrapped callable parameter: ss.time_prob(f) for a Bernoulli probability, ss.dur(f) elsewhere
@@ -87,8 +104,19 @@ def make(fam, mode, slots, trace, seed, table=None, req=None):
         else:
             tab = np.asarray(table)
             pars[key] = lambda module, sim, uids: tab if uids is None else tab[np.asarray(uids, dtype=int)]  # (lognormal calls it with None at init)
-    d = getattr(ss, fam)(**pars)
-    d.init(trace=trace, seed=seed, sim=Sim0(slots), slots=slots)
+    d = getattr(ss, fam)(**pars, **(dict(strict=False) if life == 'loose' else {}))
+    init = lambda force=False: d.init(trace=trace, seed=seed, sim=Sim0(slots), slots=slots, force=force)
+    if life == 'loose':
+        init(True)
+    else:
+        init()
+        if life != 'once':
+            # something is drawn before the object is re-initialised / copied / restored
+            if mode == 'scalar': d.rvs(3)
+            else: d.rvs(ss.uids(req if (mode == 'array' or (req is not None and len(req))) else [0]))
+            if life == 'twice': init(True)
+            elif life == 'pickle' and mode in ('scalar', 'array'): d = pickle.loads(pickle.dumps(d))      # (the callables of the other modes are local functions)
+            else: d = copy.deepcopy(d)
     return d
 
 
@@ -157,6 +185,7 @@ def strata(families):
 
 
 def gen_case(rng, families, fam=None, mode=None):
+    fam_given = fam is not None
     fam = fam if fam is not None else rng.choice(families)
     modes = modes_of(fam)
     mode = mode if mode is not None else rng.choice(modes)
@@ -166,9 +195,12 @@ def gen_case(rng, families, fam=None, mode=None):
     k = rng.choice([0, 1, 1, 2, 3, n // 2, n])
     req = rng.sample(range(n), min(k, n))
     if rng.random() < 0.5: req.sort()
-    return dict(family=fam, mode=mode, n=n, slots=slots, req=req, trace='d_%d' % rng.randint(0, 10**6),
-                seed=rng.choice([0, 1, 7, 123456]), history=gen_history(rng), tabseed=rng.randint(0, 10**6),
-                via=rng.choice(['dist', 'container']))
+    if fam_given and not req: req = [0, n - 1]        # (the cases that guarantee the coverage of a (family, mode) pair request somebody)
+    c = dict(family=fam, mode=mode, n=n, slots=slots, req=req, trace='d_%d' % rng.randint(0, 10**6),
+             seed=rng.choice([0, 1, 7, 123456]), history=gen_history(rng), tabseed=rng.randint(0, 10**6),
+             via=rng.choice(['dist', 'container']))
+    c['life'] = LIVES[c['tabseed'] % len(LIVES)]      # (derived, so that the sequence of generated cases is the one of the earlier rounds)
+    return c
 
 
 def gen_long_case(rng, families, i):
@@ -218,6 +250,13 @@ def lst(xs, f=str):
 
 # ---------------------------------------------------------------------------
 
+def corr_life(c):
+    """ in the correspondence the twice-initialised object is left out when the seed is 0 (see known finding C03-reinit-seed0: the
+        model's seed is then not the object's) """
+    life = life_of(c)
+    return 'copy' if (life == 'twice' and not c['seed']) else life
+
+
 def correspond(ctx):
     import starsim as ss
     import random as pyrandom
@@ -231,7 +270,7 @@ def correspond(ctx):
         slots = np.array(c['slots'])
         table = par_table(c['family'], c['n'], pyrandom.Random(c['tabseed'])) if c['mode'] != 'scalar' else None
         try:
-            d = make(c['family'], c['mode'], slots, c['trace'], c['seed'], table, c['req'])
+            d = make(c['family'], c['mode'], slots, c['trace'], c['seed'], table, c['req'], life=corr_life(c))
             ref = make(c['family'], 'scalar', slots, c['trace'], c['seed'])
             hl = play_history(d, c['history'], None if c['mode'] == 'scalar' else c['req'], via=c.get('via', 'dist')); play_history(ref, c['history'])
             pre = d.state_int
@@ -452,8 +491,11 @@ def oracle_case(c):
         if n >= 4: table[0] = 0.0; table[1] = 1.0       # agents that are certainly out / certainly in, next to the others
     allu = list(range(n))
     via0 = c.get('via', 'dist')
-    def draw(req, hist, slots_=slots, via=via0):
-        d = make(fam, mode, slots_, c['trace'], c['seed'], table, req)
+    life0 = corr_life(c)
+    seeds = {}
+    def draw(req, hist, slots_=slots, via=via0, life=life0):
+        d = make(fam, mode, slots_, c['trace'], c['seed'], table, req, life=life)
+        seeds[life] = int(d.seed)
         play_history(d, hist, None if mode == 'scalar' else req, via=via)
         return np.asarray(d.rvs(ss.uids(req)))
     hist = c['history']
@@ -502,6 +544,23 @@ def oracle_case(c):
         sub7 = draw(req, hist, via='dist' if via0 == 'container' else 'container')
         if not same(sub7, sub):
             return dict(signature=dict(sig, relation='container'), what=f'ss.{fam} ({mode}): values differ between timestep jumps made through the module container (ss.Dists.jump_dt) and through Dist.jump_dt')
+        # object lifecycle: the same request after the same history on an object that was created loosely and re-initialised /
+        # initialised twice / deep-copied / pickled and restored after a first draw (every lifecycle, in every case)
+        for life in ['once', 'loose', 'copy', 'pickle', 'twice']:
+            if life == life0: continue
+            try:
+                subl = draw(req, hist, life=life)
+            except Exception as e:
+                return dict(signature=dict(sig, relation='lifecycle', life=life, cause='raises'), what=f'ss.{fam} ({mode}): on a distribution object with lifecycle `{life}` the request raises {type(e).__name__}: {e}')
+            if not same(subl, sub):
+                a, b = sorted([life, life0], key=LIVES.index)
+                # (diagnosed from the observed objects: the only difference a re-initialisation with a zero seed makes today is that
+                #  `Dist.process_seed` adds the name's offset to the previous total, `seed or self.seed`, i.e. counts it twice)
+                other = seeds.get(b if a == 'twice' else a)
+                cause = 'seed-accumulates' if ('twice' in (a, b) and not c['seed'] and other and seeds.get('twice') == 2 * other) else 'stream'
+                return dict(signature=dict(sig, relation='lifecycle', life=f'{a}/{b}', cause=cause),
+                            what=f'ss.{fam} ({mode}): values differ between distribution objects with lifecycles `{a}` and `{b}` (same seed, name, parameters, timestep, call and slots)'
+                                 + (f': the object initialised twice has seed {seeds.get("twice")}, the other {other} (seed=0 given both times)' if cause == 'seed-accumulates' else ''))
         # population size: append agents with larger slots
         big = np.concatenate([slots, slots.max() + 1 + np.arange(7)])
         if mode == 'scalar' or mode == 'callable' or mode == 'array':
@@ -740,6 +799,17 @@ def search(ctx):
         if f:
             ctx.fail(f['signature'], f['what'], dict(kind='long_run', cfg=cfg))
     fixed_durs = [dict(dist='uniform', pars=dict(low=0.0, high=4.0)), dict(dist='poisson', pars=dict(lam=2.0))]
+    # always exercised: a duration of infection drawn from a distribution object the USER made before the sim existed (strict=False:
+    # it initialised itself, was perhaps drawn from, and is re-initialised by Sim.init) -- a SciPy-backed and a NumPy-backed family
+    user_dists = [dict(dist='gamma', pars=dict(a=2.0, scale=3.0)), dict(dist='weibull', pars=dict(c=1.5, scale=4.0), preview=3),
+                  dict(dist='lognorm_ex', pars=dict(mean=4.0, std=2.0), preview=5)]
+    for ud in user_dists:
+        cfg = dict(n_agents=60, rand_seed=ctx.rng.randint(0, 1000), unit='year', dt=1.0, start=2000, dur=12, extra=ctx.rng.choice([1, 7, 30]),
+                   diseases=[dict(type='sir', beta=0.5, init_prev=0.15, dur_inf=ud, p_death=0)], networks=[dict(type='erdosrenyi', p=0.08)], demographics=[])
+        f = oracle_extension(cfg)
+        ctx.count('extension_runs_user_dist')
+        if f:
+            ctx.fail(f['signature'], f['what'], dict(kind='extension', cfg=cfg))
     for i in range(ctx.budget(3, 25) + len(fixed_durs)):
         cfg = gen_extension_cfg(ctx.rng)
         if i < len(fixed_durs):
